@@ -101,6 +101,14 @@ fn fam_pow<const N: usize, const E: usize>(ctx: &Ctx) {
     }
     let stride = if !th && N >= 8 { 3 } else { 1 };
     let jobs: Vec<_> = jobs.into_iter().step_by(stride).collect();
+    // 16-limb bases with 16-limb exponents: ~1 ms per power and ~100 values of k per job; the complete job list
+    // (240 k) did not finish in 25 min, so it is stride-thinned to 5000 jobs (every modulus and base still occurs)
+    let jobs: Vec<_> = if th && N * E >= 64 && jobs.len() > 5000 {
+        let n = jobs.len();
+        (0..5000).map(|i| jobs[i * (n - 1) / 4999].clone()).collect()
+    } else {
+        jobs
+    };
     ctx.par_for(fam, &wname, jobs.len(), |i, l| {
         let (mi, b, ei) = (&jobs[i].0, &jobs[i].1, jobs[i].2);
         let m = &ms[*mi];
